@@ -45,6 +45,11 @@ Inductive c15case :=
    parse.String(s, []intN) (scanner tokens; the env source) and
    parse.SignedIntegralSlice / UnsignedIntegralSlice (Split + TrimSpace; the flag helpers).
    zs are the values the harness rendered into s. *)
+(* strings through the flag helpers' String() and back through parse.String at a type that is of
+   slice-of-string / map-of-string KIND but not exactly []string / map[string]string:
+   []Label, type Names []string, map[Label]string, type Env map[string]string ... *)
+| NamedSliceRT (pr : list rune) (t : ty) (l : list str) (impl_str : str) (impl : outcome pval)
+| NamedMapRT (pr : list rune) (t : ty) (m : list (str * str)) (impl_str : str) (impl : outcome pval)
 | PaddedInts (signed : bool) (w : N) (s : str) (zs : list Z) (impl_generic : outcome pval)
              (impl_integral : outcome (list Z)).
 
@@ -252,6 +257,17 @@ Definition check (c : c15case) : N :=
                     end in
         verdict (out_eqb Z.eqb impl spec) (out_eqb Z.eqb impl model)
                 (match dur_spec s with DVal _ t => if two64 <=? t then 4 else 0 | _ => 0 end)
+  | NamedSliceRT pr t l istr impl =>
+      let isp := mk_print pr in
+      let mstr := slice_string isp l in
+      verdict (out_eqb pval_eqb impl (Ok (VList (map VStr l))))
+              (str_eqb istr mstr && out_eqb pval_eqb impl (omap pval_norm (parse_string isp fixed9 fixed_elem t mstr))) 0
+  | NamedMapRT pr t m istr impl =>
+      let isp := mk_print pr in
+      let mstr := map_ss_string isp m in
+      if negb (no_dup (map fst m)) then 1
+      else verdict (out_eqb pval_eqb impl (Ok (VMap (map (fun kv : str * str => (VStr (fst kv), VStr (snd kv))) m))))
+                   (str_eqb istr mstr && out_eqb pval_eqb impl (omap pval_norm (parse_string isp fixed9 fixed_elem t mstr))) 0
   | PaddedInts signed w s zs ig ii =>
       let et := if signed then TInt (sw_of w) else TUint (uw_of w) in
       let mg := parse_string (mk_print []) fixed9 fixed_elem (TSlice et) s in
